@@ -962,15 +962,46 @@ package graphql
 
 // isValidLiteralValue appends its messages in loop order: every emitting loop must iterate in a
 // defined order (loops: 1 list values, 2 messages, 3 provided fields, 4 collects the field names, 5 defined fields in sorted order, 6 messages).
+// C05 (the literal side of isValidInputValue): valid exactly when there are no messages; no literal is
+// invalid exactly for a non-null type; a variable reference is accepted for a nullable position (its value
+// is judged when the variables are coerced); wrappers are transparent / list-of-one; a non-object for an
+// input object is invalid; every provided field that is not defined adds one message and every defined
+// field judged invalid (own literal, none: null; own type) adds its messages; scalar / enum exactly when
+// ParseLiteral yields a value.
 //@ func isValidLiteralValue
-//@   props C12 C09:safety
+//@   props C12 C09:safety C05
 //@   opt safety.only=typeassert
-//@   orderfree
-//@   opt invoke.ParseLiteral=pure
-//@   loop 1 ordered
-//@   loop 3 ordered
-//@   loop 5 ordered
-//@   loop 5 invariant sortedflag(fieldNames)
+//@   assigns nothing
+//@   orderfree[C12]
+//@   loop[C12] 1 ordered
+//@   loop[C12] 3 ordered
+//@   loop[C12] 5 ordered
+//@   loop[C12] 5 invariant sortedflag(fieldNames)
+//@   ensures[C05] result0 <==> len(result1) == 0
+//@   ensures[C05] valueAST == nil ==> (result0 <==> !typeis(ttype, "*graphql.NonNull"))
+//@   ensures[C05] !typeis(ttype, "*graphql.NonNull") && valueAST != nil ==> calls("GetKind") == 1 && (lastresult("GetKind") == "Variable" ==> result0)
+//@   at[C05] call isValidLiteralValue#1: assert arg1 == valueAST && (isnil(arg0) || arg0 == as(old(ttype), "*graphql.NonNull").OfType)
+//@   ensures[C05] calls("isValidLiteralValue") == 1 && valueAST != nil && typeis(ttype, "*graphql.NonNull") ==> result0 == lastresult("isValidLiteralValue")
+//@   at[C05] call isValidLiteralValue#2: assert arg1 == value && (isnil(arg0) || arg0 == as(old(ttype), "*graphql.List").OfType)
+//@   loop[C05] 1 invariant fresh(messagesReduce)
+//@   loop[C05] 2 invariant fresh(messagesReduce) && len(messagesReduce) == atloop(1, len(messagesReduce)) + rangeindex + 1 && rangeindex + 1 <= len(messages)
+//@   loop[C05] 1 ensures len(messagesReduce) == atloop(1, len(messagesReduce)) + len(lastresult("isValidLiteralValue", 1))
+//@   at[C05] call isValidLiteralValue#3: assert arg1 == old(valueAST) && (isnil(arg0) || arg0 == as(old(ttype), "*graphql.List").OfType)
+//@   ensures[C05] calls("GetKind") == 1 && lastresult("GetKind") != "Variable" && typeis(ttype, "*graphql.InputObject") && !typeis(valueAST, "*ast.ObjectValue") ==> !result0
+//@   loop[C05] 3 invariant fresh(messagesReduce) && fresh(fieldASTMap)
+//@   loop[C05] 3 ensures (!has(fields, fieldAST.Name.Value) || fields[fieldAST.Name.Value] == nil) ==> len(messagesReduce) == atloop(3, len(messagesReduce)) + 1
+//@   loop[C05] 3 ensures has(fields, fieldAST.Name.Value) && fields[fieldAST.Name.Value] != nil ==> len(messagesReduce) == atloop(3, len(messagesReduce))
+//@   loop[C05] 3 ensures has(fieldASTMap, fieldAST.Name.Value) && fieldASTMap[fieldAST.Name.Value] == fieldAST
+//@   loop[C05] 4 invariant fresh(fieldNames)
+//@   at[C05] call isValidLiteralValue#4: assert arg0 == fields[fieldName].Type && (fieldASTMap[fieldName] != nil ==> arg1 == fieldASTMap[fieldName].Value) && (fieldASTMap[fieldName] == nil ==> isnil(arg1))
+//@   loop[C05] 5 invariant fresh(messagesReduce)
+//@   loop[C05] 6 invariant fresh(messagesReduce) && len(messagesReduce) == atloop(5, len(messagesReduce)) + rangeindex + 1 && rangeindex + 1 <= len(messages)
+//@   loop[C05] 5 ensures calls("isValidLiteralValue") == atloop(5, calls("isValidLiteralValue")) + 1
+//@   loop[C05] 5 ensures !lastresult("isValidLiteralValue") ==> len(messagesReduce) == atloop(5, len(messagesReduce)) + len(lastresult("isValidLiteralValue", 1))
+//@   loop[C05] 5 ensures lastresult("isValidLiteralValue") ==> len(messagesReduce) == atloop(5, len(messagesReduce))
+//@   ensures[C05] calls("ParseLiteral") == 1 ==> (result0 <==> !isNullish_0(lastresult("ParseLiteral")))
+//@   ensures[C05] calls("GetKind") == 1 && lastresult("GetKind") != "Variable" && (typeis(ttype, "*graphql.Scalar") || typeis(ttype, "*graphql.Enum")) ==> calls("ParseLiteral") == 1
+//@   at[C05] call ParseLiteral: assert arg1 == old(valueAST)
 
 // ---- introspection resolvers never write the schema they describe (C10, C07) and list in a defined order (C12) ----
 
